@@ -8,7 +8,7 @@ tree has such a numbering — creation order).  `build ps` is the block index th
 that tree (`newBlockNode` per node, skip pointers computed by `Ancestor` on the parent).  The naive
 answers are the `Spec.*` walks over `Spec.parentOf ps`.
 -/
-import BV.C17.LemmasLocate
+import BV.C17.LemmasRange
 import BV.C17.LemmasHF
 import BV.Generated.C17
 namespace BV.C17
@@ -192,6 +192,20 @@ theorem locator_heights (h : Nat) :
 example : locatorHeights 100 = [100, 99, 98, 97, 96, 95, 94, 93, 92, 91, 90, 89, 87, 83, 75, 59, 27, 0] := by
   decide
 
+/-- the locator never outgrows the capacity computed up front (`height+1` up to 12,
+    `12 + ⌊log2 (height − 10)⌋` above); for int32 heights that is at most 42 entries, far below
+    the 500 hashes a `getblocks`/`getheaders` message may carry -/
+theorem locator_length_le (h : Nat) :
+    (locatorHeights h).length ≤ locatorMaxEntries h ∧
+    (h < 2^31 → (locatorHeights h).length ≤ 42 ∧ 42 ≤ MAX_LOCATORS_PER_MSG) := by
+  refine ⟨locatorHeights_length_le h, fun hh => ⟨Nat.le_trans (locatorHeights_length_le h) ?_, by decide⟩⟩
+  unfold locatorMaxEntries
+  by_cases h12 : h ≤ 12
+  · simp only [h12, if_true]; omega
+  · simp only [h12, if_false]
+    have : (h - 10).log2 < 31 := (Nat.log2_lt (by omega)).mpr (by omega)
+    omega
+
 /-! ### locator-driven inventory -/
 
 /-- `locateBlocks` / `locateHeaders` (via `locateInventory`) on the view of tip `t` never
@@ -213,6 +227,67 @@ theorem locateInventory_eq_spec (ps : List Nat) (hv : ValidFrom 1 ps) (t : Nat) 
   congr 2
   funext n
   simp [Index.known, hs]; omega
+
+/-! ### height-range queries -/
+
+/-- `HeightRange(s, e)` on the view of tip `t`: an error for a negative start or `e < s`, otherwise
+    exactly the active-chain blocks with `s ≤ height < e` (never a nil dereference) -/
+theorem heightRange_eq (ps : List Nat) (hv : ValidFrom 1 ps) (t : Nat) (ht : t ≤ ps.length) (s e : Int) :
+    let P := parentOf ps
+    heightRange (build ps) ((pathDown P t).map some) s e =
+      if s < 0 ∨ e < s then .err else .ids (((pathDown P t).take e.toNat).drop s.toNat) := by
+  obtain ⟨wf, hs⟩ := wf_build ps hv
+  simp only []
+  rw [← parent_build]
+  exact Lemmas.heightRange_eq wf t (by omega) s e
+
+/-- `HeightToHashRange(s, end, max)` for a known end block: an error when the end block is not
+    marked valid, `s` is outside `[0, height end]` or more than `max` results are needed; otherwise
+    the ancestors of `end` from height `s` up to `end` itself, lowest first -/
+theorem heightToHashRange_eq (ps : List Nat) (hv : ValidFrom 1 ps) (valid : Nat → Bool)
+    (s : Int) (e : Nat) (max : Int) (he : e ≤ ps.length) :
+    let P := parentOf ps
+    heightToHashRange (build ps) valid s e max =
+      if valid e = false ∨ s < 0 ∨ s > depth P e ∨ (depth P e : Int) - s + 1 > max then .err
+      else .ids ((pathDown P e).drop s.toNat) := by
+  obtain ⟨wf, hs⟩ := wf_build ps hv
+  simp only []
+  rw [← parent_build, depth_eq wf e (by omega)]
+  exact Lemmas.heightToHashRange_eq wf valid s e max (by omega)
+
+/-- `IntervalBlockHashes(end, interval)` for a valid known end block and a positive interval, on
+    the view of any tip: the ancestors of `end` at heights `interval, 2·interval, …` -/
+theorem intervalBlockHashes_eq (ps : List Nat) (hv : ValidFrom 1 ps) (valid : Nat → Bool)
+    (t e iv : Nat) (ht : t ≤ ps.length) (he : e ≤ ps.length) (hval : valid e = true) (hiv : 0 < iv) :
+    let P := parentOf ps
+    ∃ l, intervalBlockHashes (build ps) ((pathDown P t).map some) valid e (iv : Int) = .ids l ∧
+      l.map some = (List.range (depth P e / iv)).map
+        (fun j => ancestorAt P e (((j + 1) * iv : Nat) : Int)) := by
+  obtain ⟨wf, hs⟩ := wf_build ps hv
+  simp only []
+  rw [← parent_build, depth_eq wf e (by omega)]
+  exact Lemmas.intervalBlockHashes_eq wf _ (coherent_pathView wf t (by omega)) valid e iv (by omega) hval hiv
+
+/-- main-chain membership and height lookups by hash / by height -/
+theorem mainChain_lookups_eq (ps : List Nat) (hv : ValidFrom 1 ps) (t : Nat) (ht : t ≤ ps.length) (n : Nat) :
+    let P := parentOf ps
+    let v : View := (pathDown P t).map some
+    mainChainHasBlock (build ps) v n = (decide (n ≤ ps.length) && (pathUp P t).contains n) ∧
+    blockHeightByHash (build ps) v n =
+      (if decide (n ≤ ps.length) && (pathUp P t).contains n then some (depth P n) else none) := by
+  obtain ⟨wf, hs⟩ := wf_build ps hv
+  simp only []
+  rw [← parent_build]
+  have hc := contains_pathView wf t n (by omega : t < (build ps).size)
+  unfold pathView at hc
+  have hk : Index.known (build ps) n = decide (n ≤ ps.length) := by
+    simp [Index.known, hs]; omega
+  unfold mainChainHasBlock blockHeightByHash
+  rw [hc, hk]
+  refine ⟨rfl, ?_⟩
+  by_cases hn : n ≤ ps.length
+  · rw [depth_eq wf n (by omega)]
+  · simp [hn]
 
 /-! ### headers-first tracking (light model, see Headers.lean) -/
 
